@@ -432,3 +432,25 @@ pub fn rss_gb() -> f64 {
 pub fn rss_cap_gb() -> f64 {
     std::env::var("VERIF_RSS_CAP_GB").ok().and_then(|s| s.parse().ok()).unwrap_or(20.0)
 }
+
+/// the first region where two renderings differ, with a little context (for readable messages)
+pub fn first_diff(a: &str, b: &str) -> String {
+    let ab = a.as_bytes();
+    let bb = b.as_bytes();
+    let mut i = 0;
+    while i < ab.len() && i < bb.len() && ab[i] == bb[i] {
+        i += 1;
+    }
+    let cut = |s: &str| -> String {
+        let mut lo = i.saturating_sub(160);
+        while !s.is_char_boundary(lo) {
+            lo -= 1;
+        }
+        let mut hi = (i + 160).min(s.len());
+        while !s.is_char_boundary(hi) {
+            hi += 1;
+        }
+        s[lo..hi].to_string()
+    };
+    format!("at byte {i}: «{}» vs «{}»", cut(a), cut(b))
+}
